@@ -102,6 +102,20 @@ def check(emb, a, b):
             probs.append(("list-two-piece-covers-too-much", f"b{j}={(s, d)} returned cells {sorted(have)} but only {sorted(want)} are outside list one; output {got}"))
         if want - have:
             probs.append(("list-two-uncovered-part-missing", f"b{j}={(s, d)} cells {sorted(want - have)} are not covered by list one and missing from output {got}"))
+    if not probs:
+        # the SAME event objects moved one unit later and used again: the result moves with them (a period
+        # remembered on the Event object, or any other per-object memo, would answer for the old position)
+        from datetime import timedelta
+
+        for e in A + B:
+            e.timestamp = e.timestamp + timedelta(microseconds=emb.unit_us)
+        try:
+            out3 = union_no_overlap(A, B)
+        except Exception as e:
+            return [("raised", f"after moving the events: {type(e).__name__}: {e}")], None
+        got3 = [(int(emb.iv(e)[0]) - 1, int(emb.iv(e)[1]) - 1, e.data.get("label")) for e in out3]
+        if got3 != got:
+            probs.append(("stale-after-events-moved", f"same objects moved by one unit: result (moved back) {got3}, before {got}"))
     return probs, got
 
 
